@@ -19,6 +19,7 @@ CONSTANTS
   PubRest <- RestB
   MutBatchPersistFirst = FALSE
   MutDropLogEarly = FALSE
+  MutTearIsClosed = FALSE
   MutBatchNoWait = FALSE
   MutPersistOutsideLock = FALSE
 INVARIANTS NoPanic OneUnsettled OneSenderPerPair NoSpuriousRedelivery OnlyOwnTopic BlockingReturn BatchOrder AfterClose NoStuckCall Complete
